@@ -229,9 +229,25 @@ def rule_lua_ctx_fresh(ctx, R):
                 if pl and any(isinstance(e, dict) and e.get("f") == DBF for e in pl["p"]):
                     reads_db = True
         registers = any(re.search(r"mlua::Lua::create_function(::<.*>)?$", t["f"] or "") for _, _, t in shared.deep_calls(ctx, b))
+        if not reads_db and registers:
+            # the registered closures capture the whole context (a clone) and the database index
+            # is read further down: the constructor is the function that registers closures
+            # holding a LuaCommandContext
+            for body in shared.closure_tree(ctx, b):
+                if body.kind == "Closure" and any("LuaCommandContext" in l for l in body.locals[:3]):
+                    reads_db = True
+                for bb in body.bbs:
+                    for st in bb["s"]:
+                        if st["k"] == "=" and st["r"]["k"] == "agg" and str(st["r"]["a"]).startswith("closure:"):
+                            cb = ctx.prog.bodies.get(st["r"]["a"][8:])
+                            if cb is not None and any("LuaCommandContext" in body.locals[op_place(o)["l"]] for o in st["r"]["o"] if not op_is_const(o)):
+                                reads_db = True
         if reads_db and registers:
             ctxfns.add(fn)
     R.floor("context_constructors", len(ctxfns))
+    if not ctxfns:
+        R.broken.append("no function of the Lua engine that registers closures holding the caller's database found: the rule cannot be evaluated")
+        return
     n = 0
     for ev, runs in rb:
         mk = [i for i, t in ev.calls() if callee(t) in ctxfns]
@@ -567,3 +583,29 @@ def rule_deadline_bound(ctx, R):
                           "%s computes a deadline (line %d) from a Duration that is not bounded by a constant: a client TTL near u64::MAX ms then survives into the stored deadline, and the dump writers' unchecked `now + remaining TTL` (SAVE, BGSAVE, SYNC) panic" % (fn.split("::")[-1], b.bb_line(i)), b.loc(i))
             k += 1
     R.floor("deadline_additions", n)
+
+
+# ---- R-UTF8-UNCHECKED -----------------------------------------------------------------------------
+def rule_utf8_unchecked(ctx, R):
+    """no bytes a client (or a file) supplied are declared to be UTF-8 without a check:
+    `from_utf8_unchecked` on the command path takes only bytes the server produced itself (its
+    argument's provenance has no parameter / frame payload and no read buffer).  On unchecked
+    client bytes every later `&s[i..]`, `char` walk or `find` can panic on a non-boundary index
+    (or worse): `XADD s "-\\x80" f v` ends the process."""
+    cp = shared.command_path(ctx)
+    n = 0
+    for fn in sorted(cp):
+        b = ctx.prog.bodies.get(fn)
+        if b is None or "::tests::" in fn:
+            continue
+        for i, t in b.calls():
+            if not re.search(r"str::from_utf8_unchecked(_mut)?$|String::from_utf8_unchecked$|converts::from_utf8_unchecked$", t["f"] or "") or not t["a"]:
+                continue
+            n += 1
+            a = t["a"][0]
+            P = prov.operand_origins(b, a, deep=True) if not op_is_const(a) else None
+            own = P is None or (not P.params() and not any(r[0] in ("upvar",) for r in P.roots) and not P.has_call(r"Read>::read|read_exact|read_line|read_until|RespFrame"))
+            R.inst(fn, "unchecked-utf8#%d" % n, {"function": fn, "at": b.loc(i), "argument_is_server_made": own})
+            if not own:
+                R.finding(fn, "unchecked-utf8:input-bytes", "%s declares bytes that arrive from outside to be UTF-8 without checking them (line %d): a later slice or search of the `str` at a non-boundary byte index panics -- the process exits for every client" % (fn.split("::")[-1], b.bb_line(i)), b.loc(i))
+    R.inst("-", "unchecked-utf8", {"sites_on_the_command_path": n})
